@@ -315,7 +315,7 @@ func Run(t *testing.T, rec *Recorder, d Driver) {
 
 	extra := len(only) == 0
 	for id := range only {
-		extra = extra || strings.HasPrefix(id, "provider/watcher/")
+		extra = extra || strings.HasPrefix(id, "provider/watcher/") || strings.HasPrefix(id, "provider/vanish/")
 	}
 
 	if d.Extra != nil && extra {
